@@ -1,12 +1,15 @@
 (** C09 - JSON accepted by an inferred schema decodes into the type.  (partial)
-    The decoder of encoding/json is not modelled; what is proved is the schema side for the
-    scalar types: the inferred schema accepts exactly the JSON values the decoder takes for
-    the type - the right JSON type and, for sized integers, the range of the kind.  For
-    structs, slices, arrays and maps the property is decided by the correspondence law on the
-    real decoder (family infer: every mutated document the schema accepts must decode with
-    DisallowUnknownFields). *)
+    The decoder of encoding/json is not modelled; what is proved is the schema side, for every
+    type of the domain [dom]: the verdict of the inferred schema is the computable function
+    [conforms] of the Go type alone - the JSON shape of the type: the right JSON type, the
+    range of a sized integer, the length of an array, every element / member value fitting in
+    turn, no undeclared struct member, every member without omitempty/omitzero present, null
+    only behind a pointer (or for a slice).  That [conforms] documents decode is decided by the
+    correspondence law on the real decoder (family infer: every mutated document the schema
+    accepts must decode with DisallowUnknownFields), and the implementation's verdicts are
+    compared with [conforms] itself (spec_mv). *)
 From Coq Require Import List NArith ZArith QArith Bool.
-From JS Require Import Str Lit Json Res Schema Basic Env Spec GoType Infer Accept C09Facts.
+From JS Require Import Str Lit Json Res GoValue Schema Basic Env Spec Validate Resolve GoType Encode Infer Accept WellTyped C04Main C09Facts Domain Verdict VerdictEnd.
 Import ListNotations.
 Local Open Scope nat_scope.
 
@@ -21,3 +24,56 @@ Example C09_example :
   decodes_scalar (TyInt KInt8) (JNum (128#1)) = false /\ decodes_scalar (TyInt KInt8) (JNum (127#1)) = true /\
   decodes_scalar (TyInt KUint32) (JNum (3#2)) = false /\ decodes_scalar TyString (JNum 1) = false.
 Proof. vm_compute. repeat split. Qed.
+
+(** the verdict of an inferred schema, for every type of the domain and every JSON value *)
+Theorem C09_verdict : forall re_match e o,
+  e_draft7 e = false -> o_ignore o = false ->
+  (forall n x, lookup n (o_schemas o) = Some x -> x = Some str_schema) ->
+  forall t s, dom o t = true -> ForType o t = Ok (Some s) -> decides re_match e s (conforms o 64 t).
+Proof. exact ForType_decides. Qed.
+Print Assumptions C09_verdict.
+
+(** ... and through Resolve and Validate *)
+Theorem C09_end_to_end : forall re_ok re_match hash o,
+  o_ignore o = false ->
+  (forall n x, lookup n (o_schemas o) = Some x -> x = Some str_schema) ->
+  forall t s fuel e calls,
+  dom o t = true -> ForType o t = Ok (Some s) ->
+  Resolve re_ok fuel s [] None = Ok (e, calls) ->
+  forall inst, gv_wf inst = true ->
+  exists n, forall n', n <= n' ->
+    Validate re_match hash n' e inst = if conforms o 64 t (den inst) then Ok tt else Err.
+Proof. exact For_Resolve_Validate_verdict. Qed.
+Print Assumptions C09_end_to_end.
+
+(** [conforms] is not too strict: every encoding of a value conforms (C04 read through C09) *)
+Theorem C09_encodings_conform : forall oz o,
+  o_ignore o = false -> o_tsnull o = false ->
+  (forall n x, lookup n (o_schemas o) = Some x -> x = Some str_schema) ->
+  forall t s, dom o t = true -> ForType o t = Ok (Some s) ->
+  forall m v k j, wt m t v = true -> encode oz k t v = Some j -> conforms o 64 t j = true.
+Proof. exact encode_conforms. Qed.
+Print Assumptions C09_encodings_conform.
+
+(** a struct { A int8 `json:"a"`; B []string `json:"b,omitempty"`; C *bool }: an undeclared member,
+    a missing required member, an out-of-range number and null for a non-pointer are all rejected *)
+Definition fT (n : str) (tag : str) (has : bool) : finfo :=
+  {| fi_name := n; fi_exported := true; fi_embedded := false; fi_hastag := has; fi_tag := tag; fi_desc := None |}.
+Definition tS : gtype :=
+  TyStruct [(fT (lit "A"%lit) (lit "a"%lit) true, TyInt KInt8);
+            (fT (lit "B"%lit) (lit "b,omitempty"%lit) true, TySlice TyString);
+            (fT (lit "C"%lit) [] false, TyPtr TyBool)].
+Definition oS : iopts := {| o_ignore := false; o_tsnull := false; o_schemas := [] |}.
+Definition num (z : Z) : json := JNum (z # 1).
+Example C09_struct_example :
+  dom oS tS = true /\
+  (exists s, ForType oS tS = Ok (Some s)) /\
+  conforms oS 64 tS (JObj [(lit "a"%lit, num 5); (lit "C"%lit, JNull)]) = true /\
+  conforms oS 64 tS (JObj [(lit "a"%lit, num 5); (lit "C"%lit, JBool true); (lit "b"%lit, JArr [JStr (lit "x"%lit)])]) = true /\
+  conforms oS 64 tS (JObj [(lit "a"%lit, num 5); (lit "C"%lit, JNull); (lit "d"%lit, JNull)]) = false /\   (* undeclared member *)
+  conforms oS 64 tS (JObj [(lit "a"%lit, num 5)]) = false /\                                        (* C is required *)
+  conforms oS 64 tS (JObj [(lit "a"%lit, num 200); (lit "C"%lit, JNull)]) = false /\                    (* int8 *)
+  conforms oS 64 tS (JObj [(lit "a"%lit, JNull); (lit "C"%lit, JNull)]) = false /\                      (* null for an int8 *)
+  conforms oS 64 tS (JObj [(lit "a"%lit, num 5); (lit "C"%lit, JNull); (lit "b"%lit, JNull)]) = true /\     (* null for a slice *)
+  conforms oS 64 tS JNull = false.
+Proof. vm_compute. repeat split; eauto. Qed.
